@@ -374,7 +374,7 @@ def setup(tier, seed):
     jobs = _jobs(tier)
     return {
         'jobs': jobs,
-        'budget_s': 900 if tier == 'quick' else 3300,
+        'budget_s': 780 if tier == 'quick' else 3300,
         'explanation': 'bounded submit/execute/cancel histories on the real Sandbox driver, Order, Position and FuturesExchange with a '
                        'passive strategy attached (as _prepare_routes does); starting balance, fee, every quantity and price symbolic; '
                        'after every operation z3 proves wallet, position qty/side/entry, unrealised PnL and available margin equal to the '
